@@ -169,12 +169,17 @@ def model_check(chk):
     """Exhaustive TLC check of the specification itself (spec/mc/MC_SigLaws): the deviation-parameterised
     parser with no deviation is the grammar, deviations only ever accept more, formatting round-trips, the
     GVariant extension only adds strings, the string-comparison judgement is reflexive."""
+    # no -coverage here: TLC's cost accounting makes the deeply recursive parser ~5x slower.  Vacuity is excluded by
+    # the state count instead (the only action, Next, must have produced every string of the bounded space) and by
+    # the Counted / DevWitnesses invariants, which fix the number of accepted strings and one witness per deviation.
     r = core.tlc("mc/MC_SigLaws.tla", "mc/MC_SigLaws.cfg" if chk.quick else "mc/MC_SigLaws_thorough.cfg", workers=4,
-                 coverage=True, timeout=1200)
+                 timeout=1200)
     if r.violation:
         raise core.ToolError("MC_SigLaws: the specification violates its own laws:\n%s" % r.violation[:3000])
-    if r.coverage.get("Next", 0) == 0 and r.distinct < 1000:
-        raise core.ToolError("MC_SigLaws explored nothing (vacuous): %s" % r.raw_tail[-800:])
+    nsym, maxlen = (9, 4) if chk.quick else (10, 5)
+    want = sum(nsym ** k for k in range(maxlen + 1))
+    if r.distinct != want:
+        raise core.ToolError("MC_SigLaws explored %d states, expected all %d strings" % (r.distinct, want))
     chk.add_tlc(r)
     chk.cov["mc_states"] = r.distinct
     return r
@@ -203,48 +208,44 @@ def run(pid, tier, replay):
     chk.add_tlc(g)
     lap("TLC enumeration")
     obs, summ = observe(chk, bins, raw, "enum")
-    lap("harness (2 builds)")
     os.unlink(raw)
     if summ["cases"] != g.distinct:
         raise core.ToolError("harness replayed %d cases, TLC enumerated %d states" % (summ["cases"], g.distinct))
     if summ["spec_accepts"] == 0 or summ["spec_accepts"] == summ["cases"]:
         raise core.ToolError("vacuous enumeration: the grammar accepts %d of %d strings" % (summ["spec_accepts"], summ["cases"]))
+    # impl -> spec: seeded random longer signatures (drawn from the grammar, half of them mutated); they carry no
+    # expectation at all -- SigCheck judges them from the string alone
+    nr = 300 if quick else 40000
+    rcases = chk.path("rand_cases.ndjson")
+    core.run_bin(bins["n"], ["rand-sig", nr, chk.seed, rcases])
+    robs, rsumm = observe(chk, bins, rcases, "rand")
+    with open(obs, "a") as f, open(robs) as r:
+        f.write(r.read())
+    os.unlink(robs)
+    lap("harness (2 builds)")
     lines = validate(chk, obs, shards=10 if quick else 14)
     lap("TLC validation")
     chk.add("enumerated_cases", g.distinct)
+    chk.add("random_cases", rsumm["cases"])
     chk.cov["exhaustive"] = True
     chk.add("traces_validated_against_impl", len(lines))
-    nontrivial = summ["nontrivial"]
-    for i in (0, len(lines) // 3, len(lines) // 2, len(lines) - 1):
-        o = json.loads(lines[i])
+    if len(lines) != g.distinct + rsumm["cases"]:
+        raise core.ToolError("validated %d lines, expected %d" % (len(lines), g.distinct + rsumm["cases"]))
+    nontrivial = summ["nontrivial"] + rsumm["nontrivial"]
+    total = len(lines)
+    picks = [x for x in lines[:: max(1, len(lines) // 400)]]
+    picks.sort(key=lambda x: ('"disp"' not in x, -len(x)))
+    for x in picks[:2] + picks[len(picks) // 2:len(picks) // 2 + 1] + picks[-2:]:
+        o = json.loads(x)
         chk.sample({"s": text(o["s"]), "fam": o.get("fam"), "plain": (o.get("n") or {}).get("acc"),
                     "gvariant": "same" if o.get("same") else (o.get("g") or {}).get("acc"),
                     "display": text((o.get("n") or o.get("g") or {}).get("disp", []))})
-    total = len(lines)
-
-    # impl -> spec: seeded random long signatures (valid ones from the grammar, half of them mutated)
-    nr = 400 if quick else 40000
-    rcases = chk.path("rand_cases.ndjson")
-    core.run_bin(bins["n"], ["rand-sig", nr, chk.seed, rcases])
-    rraw = chk.path("gen_rand.out")
-    g2 = tlc_to_file("gen/Gen_Sig.tla", "gen/Gen_Sig_file.cfg", rraw, workers=4, timeout=3000, env={"CASES": rcases})
-    chk.add_tlc(g2)
-    robs, rsumm = observe(chk, bins, rraw, "rand")
-    rlines = validate(chk, robs, shards=6 if quick else 14)
-    chk.add("traces_validated_against_impl", len(rlines))
-    chk.add("random_cases", len(rlines))
-    lap("random signatures")
-    nontrivial += rsumm["nontrivial"]
-    total += len(rlines)
-    o = json.loads(rlines[len(rlines) // 2])
-    chk.sample({"s": text(o["s"]), "fam": o.get("fam"), "plain": (o.get("n") or {}).get("acc"),
-                "gvariant": "same" if o.get("same") else (o.get("g") or {}).get("acc")})
 
     chk.cov["evaluations"] = 2 * total  # every string is judged for the plain and for the GVariant build
     chk.cov["distinct_nontrivial"] = nontrivial
     chk.cov["rule"] = ("cases are distinct byte strings (TLC states / deduplicated random strings); non-trivial = the string "
                        "contains a container or bracket byte (a ( ) { } m), i.e. it exercises a structural rule of the grammar")
-    chk.cov["accepted_by_spec"] = summ["spec_accepts"] + rsumm["spec_accepts"]
+    chk.cov["enumerated_accepted_by_spec"] = summ["spec_accepts"]
     chk.cov["accepted_by_impl_plain"] = summ["accepted"] + rsumm["accepted"]
     chk.cov["accepted_by_impl_gvariant"] = summ["accepted_gvariant"] + rsumm["accepted_gvariant"]
     chk.assumptions += [
